@@ -87,6 +87,7 @@ class VC:
         self.qp_facts = []
         self.hints = {}
         self._failures = 0
+        self._path_proved = set()
         self._cand_n = 0
         self.gens = {}
         self.seed = 0
@@ -373,6 +374,14 @@ class VC:
         self._record_one(name, kind, goal, detail)
 
     def _record_one(self, name, kind, goal, detail):
+        # within one path the PC only grows: a goal discharged earlier on this path stays valid
+        if kind != "canary" and goal.get_id() in self._path_proved:
+            key = (name, goal.get_id(), len(CTX.pc))
+            if key not in self.obligations:
+                self.obligations[key] = {"name": name, "kind": kind, "detail": detail, "status": "discharged", "backend": "same-goal-earlier-on-path",
+                                         "time_s": 0.0, "reason": None, "path": "".join("T" if d else "F" for d in CTX.decisions)}
+                self.backend_counts["same-goal-earlier-on-path"] = self.backend_counts.get("same-goal-earlier-on-path", 0) + 1
+            return
         pc = list(CTX.pc)
         key = (name, goal.get_id(), tuple(t.get_id() for t in pc))
         if key in self.obligations:
@@ -388,6 +397,7 @@ class VC:
             rec["model"] = model
         if status == "discharged":
             self.backend_counts[backend] = self.backend_counts.get(backend, 0) + 1
+            self._path_proved.add(goal.get_id())
         if len(self.obligations) < 3 or status != "discharged":
             try:
                 rec["goal_smt"] = goal.sexpr()[:600]
@@ -417,6 +427,14 @@ class VC:
             return "discharged", "z3-simplify", None, None
         budget_left = self._failures < 3
         short = min(self.timeout_s, 4)
+        if self._failures >= 6:
+            # this configuration is already failing: do not spend more solver time on it
+            try:
+                if _abstract_lra_valid(pc, goal):
+                    return "discharged", "abstract-lra", None, None
+            except z3.Z3Exception:
+                pass
+            return "unknown", None, None, "skipped: this configuration already has 6 failed obligations"
         # 0a. rewriting with equational hypotheses:  (/\ a_i == b_i) => G   is valid if G[a_i := b_i] is
         try:
             if _rewrite_with_hyps(goal):
@@ -636,6 +654,7 @@ class VC:
                 self.paths_cover_unknown += 1
 
         def body():
+            self._path_proved = set()
             self.facts = []
             self.hull_facts = []
             self.qp_facts = []
